@@ -9,7 +9,7 @@
    The one-sided half of the invariant is proved once, for an abstract bilinear pairing [ip], and used for
    both sides (ip u v = <u,v> with A, and ip u v = <v,u> with A^T). *)
 From Coq Require Import List Arith Lia Bool Ring Field.
-From OV Require Import Base.Panic Base.Arith Model.Vector Model.Iter Proofs.Iter Proofs.IterField
+From OV Require Import Base.Panic Base.Arith Model.Vector Model.Matrix Model.Sparse Model.Iter Proofs.SparseBase Proofs.Iter Proofs.IterField
   Proofs.SparseMul Proofs.IterSparse Proofs.IterSparseBreakdown Proofs.IterSparseErr Proofs.IterCGVec Proofs.IterCGDim Proofs.IterCG.
 Import ListNotations.
 
@@ -514,4 +514,59 @@ Proof.
     pose proof (biI_bound _ _ _ _ _ _ _ _ _ _ HI). lia.
 Qed.
 
+(* the invariant along every run of the loop started with the shadow residual equal to the residual: at every state reached
+   after k >= 1 steps there are histories R = [r_{k-1};..;r_0], RR = [rr_{k-1};..;rr_0] (and directions P, PP) such that the
+   pairs (r_k, rr_k), (r_{k-1}, rr_{k-1}), .., (r_0, rr_0) are mutually bi-orthogonal: <r_i, rr_j> = 0 for i <> j *)
+Theorem bicg_biorthogonality itol tol bnrm (s0 : @bicg_st A) i s :
+  itol = 1 \/ itol = 2 -> bi_lens s0 -> bi_rr s0 = bi_r s0 -> 2 <= i ->
+  reaches (bicg_body mulA mulAT n itol tol bnrm) 1 s0 i s ->
+  exists R RR P PP, length R = i - 1 /\ length RR = i - 1 /\
+    ForallOrdPairs bo ((bi_r s, bi_rr s) :: combine R RR) /\
+    biI (bi_x s) (bi_r s) (bi_rr s) (bi_p s) (bi_pp s) (bi_rho2 s) R RR P PP.
+Proof.
+  intros Hit Hl0 Hsh Hi Hr.
+  assert (G : bi_lens s /\ ((i = 1 /\ s = s0) \/
+            (2 <= i /\ exists R RR P PP, biI (bi_x s) (bi_r s) (bi_rr s) (bi_p s) (bi_pp s) (bi_rho2 s) R RR P PP /\
+                                         length R = i - 1))).
+  { clear Hi. induction Hr as [|i s s' Hr IH Eb].
+    - split; auto.
+    - destruct IH as (Hls & Hcase).
+      destruct (bicg_body_step itol tol bnrm i s _ Hit Hls Eb)
+        as (x' & r' & rr' & p & pp & rho & Hstp & [(g' & Eo)|(zz' & err & X & Hzz' & Eo)]); [discriminate Eo|].
+      injection Eo as ->. cbn [bi_x bi_r bi_rr bi_p bi_pp bi_rho2].
+      assert (HI : exists R RR P PP, biI x' r' rr' p pp rho R RR P PP /\ length R = S i - 1).
+      { destruct Hcase as [(-> & ->)|(Hi & R & RR & P & PP & HI & HlR)].
+        - destruct Hl0 as (Hx0 & Hr0 & _). rewrite Hsh in Hstp.
+          exists [bi_r s0], [bi_r s0], [p], [pp]. split; [|reflexivity].
+          exact (bi_first_step (bi_x s0) (bi_r s0) x' r' rr' p pp rho _ _ _ Hx0 Hr0 Hstp).
+        - exists (bi_r s :: R), (bi_rr s :: RR), (p :: P), (pp :: PP). split; [|cbn [length]; lia].
+          apply (bi_next_step i (bi_x s) (bi_r s) (bi_rr s) (bi_p s) (bi_pp s) (bi_rho2 s) R RR P PP); auto.
+          apply Nat.eqb_neq. lia. }
+      destruct HI as (R & RR & P & PP & HI & HlR). split.
+      + destruct HI as (Hx' & Hr' & Hrr' & _ & _ & HlP & HlPP & _ & (zr & zrr & R' & RR' & P' & PP' & _ & _ & _ & _ & _ & -> & -> & _) & _).
+        unfold bi_lens; cbn. repeat split; auto; [exact (Forall_inv HlP) | exact (Forall_inv HlPP)].
+      + right. split; [lia|]. exists R, RR, P, PP. auto. }
+  destruct G as (_ & [(-> & _)|(_ & R & RR & P & PP & HI & HlR)]); [lia|].
+  exists R, RR, P, PP. split; [exact HlR|].
+  pose proof HI as (_ & _ & _ & _ & _ & _ & _ & HlenR & _ & BO & _).
+  split; [lia|]. split; [exact BO | exact HI].
+Qed.
+
 End BiCGRun.
+
+(* for the implementation's own matrix type, any field *)
+Theorem bicg_breakdown_or_terminates_sparse {A : SArith} (FL : FieldLaws (SA A))
+    (s : Sparse.sparse (SA A)) itol (b x0 : list (T (SA A))) max tol res x g :
+  SparseBase.wfS s -> Sparse.sp_rows s + 2 <= max ->
+  run_sparse (BiCG itol) s b x0 max tol = Ok (res, x, g) ->
+  exists k, res = IOk k /\ k <= Sparse.sp_rows s + 1.
+Proof.
+  intros Hwf Hmax H.
+  destruct (run_sparse_square (BiCG itol) s b x0 max tol _ H) as (Hsq & Hb & Hx).
+  pose proof (FL_RingLaws FL) as RL.
+  pose proof (sp_mul_LinOp RL s (Sparse.sp_rows s) Hwf eq_refl (eq_sym Hsq)) as LO.
+  pose proof (sp_tmul_LinOp RL s (Sparse.sp_rows s) Hwf eq_refl (eq_sym Hsq)) as LOT.
+  pose proof (sp_mul_AdjOp RL s (Sparse.sp_rows s) Hwf eq_refl (eq_sym Hsq)) as ADJ.
+  unfold run_sparse in H. cbn [run] in H. rewrite <- Hsq in H.
+  exact (bicg_breakdown_or_terminates FL (Sparse.sp_rows s) (Sparse.sp_mul s) (Sparse.sp_tmul s) LO LOT ADJ itol b x0 max tol res x g Hmax H).
+Qed.
